@@ -233,6 +233,24 @@ func propPriv(args []string) string {
 			return fmt.Sprintf("%q: writes into %s but no write privilege on database %q in %v", text, sel.Target.Measurement.String(), sel.Target.Measurement.Database, ps)
 		}
 	}
+	if sel != nil && !strings.Contains(text, "/") {
+		// the databases as they are *written*: the text is tokenised with the scanner and the segmented names
+		// after every FROM (and after commas of a source list) and after INTO are read off the tokens — a name
+		// with two dots starts with its database. A read privilege on every database written in a FROM at any
+		// depth, the write privilege on the one written after INTO (round-5 seeded change C19-1: the parser
+		// itself dropped the database of `INTO db.rp.:MEASUREMENT`, so an oracle that trusts the tree saw nothing)
+		reads, write, ok := writtenDatabases(text)
+		if ok {
+			for _, db := range reads {
+				if !has(db, influxql.ReadPrivilege) {
+					return fmt.Sprintf("%q reads from database %q (as written) but no read privilege on it in %v", text, db, ps)
+				}
+			}
+			if write != nil && !has(*write, influxql.WritePrivilege) {
+				return fmt.Sprintf("%q writes into database %q (as written) but no write privilege on it in %v", text, *write, ps)
+			}
+		}
+	}
 	if sel != nil {
 		// the statement is edited after the first question (callers fill in default databases before they ask:
 		// the method's own comment tells them to normalise first): every measurement at every depth and the
@@ -270,6 +288,95 @@ func propPriv(args []string) string {
 	return ""
 }
 
+// writtenDatabases reads the database names of a SELECT text off its tokens (see propPriv). ok=false when
+// the text has a shape this reader does not follow (then nothing is judged).
+func writtenDatabases(text string) (reads []string, write *string, ok bool) {
+	type tk struct {
+		tok influxql.Token
+		lit string
+	}
+	var toks []tk
+	sc := influxql.NewScanner(strings.NewReader(text))
+	for i := 0; i < len(text)+8; i++ {
+		tok, _, lit := sc.Scan()
+		if tok == influxql.EOF {
+			break
+		}
+		if tok == influxql.WS || tok == influxql.COMMENT {
+			continue
+		}
+		if tok == influxql.ILLEGAL || tok == influxql.BADSTRING || tok == influxql.BADESCAPE {
+			return nil, nil, false
+		}
+		toks = append(toks, tk{tok, lit})
+	}
+	// segmented name starting at i: returns (database or nil, index after the name)
+	name := func(i int) (*string, int, bool) {
+		if i >= len(toks) || toks[i].tok != influxql.IDENT {
+			return nil, i, false
+		}
+		segs := []string{toks[i].lit}
+		i++
+		for i < len(toks) && toks[i].tok == influxql.DOT {
+			i++
+			switch {
+			case i < len(toks) && toks[i].tok == influxql.IDENT:
+				segs = append(segs, toks[i].lit)
+				i++
+			case i < len(toks) && toks[i].tok == influxql.DOT:
+				segs = append(segs, "") // empty middle segment; the second dot is handled by the loop
+			default:
+				segs = append(segs, "") // `db.rp.` followed by :MEASUREMENT or the end
+			}
+		}
+		if len(segs) == 3 {
+			return &segs[0], i, true
+		}
+		if len(segs) > 3 {
+			return nil, i, false
+		}
+		return nil, i, true
+	}
+	for i := 0; i < len(toks); i++ {
+		switch toks[i].tok {
+		case influxql.INTO:
+			db, _, good := name(i + 1)
+			if !good {
+				return nil, nil, false
+			}
+			if db != nil {
+				write = db
+			} else {
+				empty := ""
+				write = &empty
+			}
+		case influxql.FROM:
+			j := i + 1
+			for {
+				if j < len(toks) && toks[j].tok == influxql.LPAREN {
+					break // subquery: its own FROM is met by the outer loop; a source list after a subquery is not followed
+				}
+				db, next, good := name(j)
+				if !good {
+					return nil, nil, false
+				}
+				if db != nil {
+					reads = append(reads, *db)
+				} else {
+					reads = append(reads, "")
+				}
+				j = next
+				if j < len(toks) && toks[j].tok == influxql.COMMA {
+					j++
+					continue
+				}
+				break
+			}
+		}
+	}
+	return reads, write, true
+}
+
 // ---- generator ----
 
 // database names: also names that differ only in letter case, in a trailing blank, in quoting, or by
@@ -305,7 +412,7 @@ func privTarget(r *rand.Rand) string {
 	case 2:
 		return "rp." + pick(r, privNames)
 	case 3, 4:
-		return pick(r, privDBs) + ".rp.:MEASUREMENT"
+		return pick(r, privDBs) + pick(r, []string{".rp.:MEASUREMENT", "..:MEASUREMENT", ".autogen.:MEASUREMENT"})
 	case 5:
 		return "rp.:MEASUREMENT"
 	}
